@@ -757,6 +757,10 @@ class Interp:
         out = {}
         for k, v in zip(e.keys, e.values):
             if k is None:
+                src = self.eval(v)
+                if isinstance(src, dict) and type(src) is dict:          # {**d, ...}: the entries of a known dict, in its order
+                    out.update(src)
+                    continue
                 return T.opaque("dict unpacking")
             out[self._hashable(self.eval(k))] = self.eval(v)
         return out
